@@ -29,23 +29,29 @@ u8* ir2c_getenv(u8* name)
 static u8 handle_obj[MAXH]; static u32 h_open[MAXH], h_closes[MAXH], h_lib[MAXH], n_handles;
 static u32 open_fails[NOPS], sym_fails[NOPS], cur_step;
 static u8 err_bad[4] = "bad", err_nos[4] = "nos"; static u8* pending_err;
+/* like the real loader, the stub keeps ONE diagnostic buffer and re-uses it: every later loader call overwrites it */
+static u8 errbuf[4];
+static void clobber(void) { if (!pending_err) { errbuf[0] = 'o'; errbuf[1] = 'l'; errbuf[2] = 'd'; errbuf[3] = 0; } }
+static u8* diag(u8* d) { for (int i = 0; i < 4; ++i) errbuf[i] = d[i]; return errbuf; }
 static u32 snap[(NOPS + 1) * MAXH];
 static int hidx(u8* h) { for (int i = 0; i < MAXH; ++i) if (h == &handle_obj[i]) return i; return -1; }
 u8* ir2c_dlopen(u8* name, u32 flags)
 {
     (void)flags;
-    if (open_fails[cur_step] || n_handles >= MAXH) { pending_err = err_bad; return 0; }
+    clobber();
+    if (open_fails[cur_step] || n_handles >= MAXH) { pending_err = diag(err_bad); return 0; }
     u32 h = n_handles++; h_open[h] = 1; h_lib[h] = name[0] == '2' ? 2 : 1; pending_err = 0;
     return &handle_obj[h];
 }
 u32 ir2c_dlclose(u8* p)
 {
+    clobber();
     int h = hidx(p);
     CHECK(h >= 0 && h_open[h], "C19: dlclose is called on a handle that is open (never twice, never on garbage)");
     if (h >= 0) { h_open[h] = 0; h_closes[h]++; }
     return 0;
 }
-u8* ir2c_dlerror(void) { u8* e = pending_err; pending_err = 0; return e; }
+u8* ir2c_dlerror(void) { clobber(); u8* e = pending_err; pending_err = 0; return e; }
 static u32 called_ok = 1;
 static u32 fn0(u32 x) { if (!h_open[0]) called_ok = 0; return x + 100; }
 static u32 fn1(u32 x) { if (!h_open[1]) called_ok = 0; return x + 200; }
@@ -56,7 +62,8 @@ u8* ir2c_dlsym(u8* p, u8* name)
     (void)name;
     int h = hidx(p);
     CHECK(h >= 0 && h_open[h], "C19: dlsym is called on an open handle");
-    if (sym_fails[cur_step]) { pending_err = err_nos; return 0; }
+    clobber();
+    if (sym_fails[cur_step]) { pending_err = diag(err_nos); return 0; }
     pending_err = 0;
     return h == 0 ? (u8*)&fn0 : h == 1 ? (u8*)&fn1 : h == 2 ? (u8*)&fn2 : (u8*)&fn3;
 }
@@ -87,7 +94,7 @@ int main(void)
     WITNESS_AT(!is_set && st == 0, "default returned");
     OBS("st=%u len=%u\n", st, len); OBS_STR("out", out, len < sizeof out ? len : sizeof out);
 #elif defined(MODE_DL)
-    u32 ops[NOPS], args[NOPS], res[NOPS], ret[NOPS];
+    u32 ops[NOPS], args[NOPS], res[NOPS], ret[NOPS], late[NOPS];
     /* reference ownership: which handle each holder refers to (0 = none, h+1) */
     u32 lib[2] = { 0, 0 }, sym[2] = { 0, 0 }; u32 nh = 0; u32 exp_res[NOPS]; u32 exp_open[(NOPS + 1) * MAXH]; u32 exp_ret[NOPS];
     u32 alive[MAXH] = { 0, 0, 0, 0 };
@@ -95,7 +102,7 @@ int main(void)
 #ifdef DL_OPS
         { static const u32 chosen[NOPS] = DL_OPS; ops[k] = chosen[k]; }
 #else
-        ops[k] = in_range(0, 6);
+        ops[k] = in_range(0, 9);
 #endif
         #ifdef DL_ARGS
         { static const u32 chosen_a[NOPS] = DL_ARGS; args[k] = chosen_a[k]; }
@@ -113,7 +120,9 @@ int main(void)
         case 0: if (open_fails[k] || nh >= MAXH) exp_res[k] = 1; else lib[s] = ++nh; break;
         case 1: if (!lib[s]) exp_res[k] = 4; else if (sym_fails[k]) exp_res[k] = 1; else sym[t] = lib[s]; break;
         case 2: if (!lib[s]) exp_res[k] = 4; else lib[1 - s] = lib[s]; break;
-        case 3: if (!sym[s]) exp_res[k] = 4; else sym[1 - s] = sym[s]; break;
+        case 3: case 7: if (!sym[s]) exp_res[k] = 4; else sym[1 - s] = sym[s]; break;
+        case 8: if (!sym[s]) exp_res[k] = 4; else { sym[1 - s] = sym[s]; sym[s] = 0; } break;
+        case 9: if (!lib[s]) exp_res[k] = 4; else lib[1 - s] = lib[s]; break;
         case 4: if (!sym[s]) exp_res[k] = 4; else exp_ret[k] = (u32)k + 100 * sym[s]; break;
         case 5: lib[s] = 0; break;
         case 6: sym[s] = 0; break;
@@ -122,10 +131,12 @@ int main(void)
     }
     for (u32 h = 0; h < MAXH; ++h) exp_open[NOPS * MAXH + h] = 0;
     cur_step = 0;
-    dl_history(NOPS, ops, args, res, ret);
+    for (int k = 0; k < NOPS; ++k) late[k] = 0;
+    dl_history(NOPS, ops, args, res, ret, late);
     for (int k = 0; k < NOPS; ++k) {
         CHECK(res[k] != 2 && res[k] != 3, "C19: a failed open / lookup raises the dl exception carrying the loader's diagnostic");
         CHECK(res[k] == exp_res[k], "C19: open / lookup fail exactly when the loader fails");
+        CHECK(late[k] == (exp_res[k] == 1 ? 1u : 0u), "C19: the dl exception CARRIES the loader's diagnostic: a kept copy still reports it after further loader calls have re-used the loader's buffer");
         if (ops[k] == 4 && exp_res[k] == 0) CHECK(ret[k] == exp_ret[k], "C19: calling a symbol reaches the function of the library it was loaded from");
     }
     CHECK(called_ok, "C19: a symbol is never called after its library was closed");
